@@ -613,8 +613,14 @@ class MacroProgram(ElementProgram):
                     start['name'],
                     self._maybe_trim(start['prefix']),
                     self._maybe_trim(start['suffix']),
+                    # The fallback is rendered outside of the cache node
+                    # of the dynamic attributes: static attributes are
+                    # written unconditionally (no override filters).
                     nodes.Sequence(
-                        [attr for attr in attributes if
+                        [nodes.Attribute(
+                            attr.name, attr.expression, attr.quote,
+                            attr.eq, attr.space, attr.default, [])
+                         for attr in attributes if
                          isinstance(attr, nodes.Attribute) and
                          isinstance(attr.expression, ast.Constant) and
                          isinstance(attr.expression.value, str)]
